@@ -4,6 +4,7 @@
    C01 / C03 theorems are stated about. *)
 Require Import RV.Model.Bytes RV.Gen.Tables RV.Model.Tag RV.Model.Message RV.Model.Merkle
         RV.Model.Keys RV.Model.Sign RV.Model.Client RV.Model.GenSupport RV.Gen.Code.
+Require Import RV.Proofs.CodeLib.
 From Coq Require Import ZArith Lia ZifyN ZifyBool ZifyNat.
 Local Open Scope N_scope.
 
@@ -13,20 +14,11 @@ Definition gen_handle (H : bytes -> bytes) (ev : bytes -> bytes -> bytes -> bool
            (v : version) (pk : option bytes) (nonce request : bytes) (resp : msg) : res parsed3 :=
   obind (gen_response_handler_new v pk resp nonce request) (gen_extract_time H ev ep).
 
-(* ---- "Ok value or nothing": panic sites and error values are erased, control flow stays ---- *)
-Definition obo {A B} (x : option A) (f : A -> option B) : option B :=
-  match x with Some a => f a | None => None end.
 
-Lemma oo_bind : forall A B (x : res A) (f : A -> res B), ok_opt (obind x f) = obo (ok_opt x) (fun a => ok_opt (f a)).
-Proof. intros A B [a|e|s] f; reflexivity. Qed.
 Lemma oo_idx_p : forall s m t, ok_opt (idx_p s m t) = get_field m t.
 Proof. intros. unfold idx_p. destruct (get_field m t); reflexivity. Qed.
 Lemma oo_idx : forall m t, ok_opt (idx m t) = get_field m t.
 Proof. intros. unfold idx. destruct (get_field m t); reflexivity. Qed.
-Lemma oo_unwrap_p : forall A s (x : res A), ok_opt (unwrap_p s x) = ok_opt x.
-Proof. intros A s [a|e|p]; reflexivity. Qed.
-Lemma oo_unwrap : forall A s (x : res A), ok_opt (unwrap s x) = ok_opt x.
-Proof. intros A s [a|e|p]; reflexivity. Qed.
 Lemma oo_r64e : forall b, ok_opt (read_u64_e b) = if (length b <? 8)%nat then None else Some (rd64 b).
 Proof. intros. unfold read_u64_e. destruct (length b <? 8)%nat; reflexivity. Qed.
 Lemma oo_r64 : forall b, ok_opt (read_u64 b) = if (length b <? 8)%nat then None else Some (rd64 b).
@@ -41,8 +33,6 @@ Lemma oo_rfp_m : forall H v i l p,
   ok_opt (match root_from_paths H v i l p with Ok h => Ok h | Err _ => Panic site_mfuel | Panic s => Panic s end : res bytes)
   = ok_opt (root_from_paths H v i l p).
 Proof. intros. destruct (root_from_paths H v i l p); reflexivity. Qed.
-Lemma oo_if : forall A (c : bool) (x y : res A), ok_opt (if c then x else y) = if c then ok_opt x else ok_opt y.
-Proof. intros A [|] x y; reflexivity. Qed.
 Lemma oo_vsig : forall ev ep pk sg d,
   ok_opt (match run_verifier ev ep pk [d] sg with Ok b => Ok b | Err _ => Panic site_pubkey | Panic s => Panic s end : res bool)
   = ok_opt (run_verifier ev ep pk [d] sg).
